@@ -335,6 +335,8 @@ class World:
     def __init__(self, w, res, log):
         self.w, self.res, self.log = w, res, log
         self.plan, self.fs = _S["plan"], _S["fs"]
+        self.plan.reset()  # nothing armed may survive from the previous history of this worker
+        self.fs.deactivate()
         self.fs.files.clear()
         self.arrays = build_arrays(w)
         self.user_hash = [[h_array(a) for a in arrs] for arrs in self.arrays]
@@ -1570,7 +1572,10 @@ def run_case(seed, tier="quick", case=None, known=()):
         op = copy.deepcopy(ops_in[step]) if ops_in is not None else gen_op(rng, wd, swarm, step, script)
         res["ops"].append(op)
         try:
-            outcome = apply_op(wd, op, step)
+            try:
+                outcome = apply_op(wd, op, step)
+            finally:
+                wd.plan.reset()  # a fault that was armed but never reached must not fire inside a later operation
         except (IndexError, KeyError, TypeError) as e:
             if ops_in is None:
                 raise
